@@ -16,9 +16,12 @@
     * handle_timer(): `if self._close_at is None: return`
     * datagrams_to_send(): END-state return first, then
       `if not self._network_paths: return []`
-  and assumes the C16 fix (reason phrase truncated to fit), i.e. the
-  `_close_pending` branch of datagrams_to_send never raises and always
-  reaches `_close_begin`.
+  and the close branch as it is now: the anti-amplification budget applies to
+  CONNECTION_CLOSE packets, the reason phrase is shortened to fit and the epoch
+  loop is wrapped in `try/except QuicPacketBuilderStop`, so the branch builds
+  between 0 and one-per-epoch closing packets (input `npk`), never raises and
+  always reaches `_close_begin` — closing starts whether or not a packet could
+  be built.
 
   Time is generic: `T` with the arithmetic `FArith T` of AQ.Model.Recovery
   (the driver instantiates Float = IEEE double, bit-exact with CPython).
